@@ -41,6 +41,10 @@ def closure_of(f, name):
 def install():
     st.MODE = 'bv'
     st.install_numpy_stubs()
+    import sys
+    for name, mod in list(sys.modules.items()):      # every functions module that says `float(...)`
+        if name.startswith('formulas.functions') and mod is not None and 'float' not in vars(mod):
+            mod.float = st.sym_float
     F.float = st.sym_float
 
 
